@@ -21,6 +21,17 @@ _EXPM = '_ZNK15CPPPreprocessor16expand_manifestsERNSt7__cxx1112basic_stringIcSt1
 _KW_LOOPS = {'ll_strlen.0': 14, 'll_memcmp.0': 14}
 
 HARNESSES = [
+ {'id': 'c15_error_count',
+  'property': 'C15',
+  'src': 'c15_errcount.cxx',
+  'entry': 'harness_c15_error_count',
+  'tus': _TUS, 'skip_ctors': _SKIP, 'cut': ['_ZNK15CPPPreprocessor9show_lineERK10cppyyltype'], 'tuflags': ['-fno-inline'], 'models': ['noinline.c'],
+  'desc': 'CPPPreprocessor::error / warning count every diagnostic whatever the verbosity (parse_expr, parse_type and the mains decide '
+          'failure by the count; the #if and type-string helper parsers run with verbosity 0)',
+  'domain': 'verbosity 0..2, every parser state, symbolic previous counts, location with/without line and column, error or warning',
+  'oracle': '_error_count == old + 1 after error() unless the state is S_nested/S_end_nested (then unchanged); _warning_count == old + 1 '
+            'after warning(); the other counter unchanged',
+  'bounds': {'quick': {'defs': {}, 'unwind': 12, 'unwindset': {'ll_strlen.0': 16, 'll_memcpy.0': 16}, 'cap': 300}}},
  {'id': 'c15_define_ctor',
   'property': 'C15',
   'src': 'c15_manifest.cxx',
